@@ -269,3 +269,15 @@ let run_msg (input : Sexp.t) (impl : Sexp.t) : Verdict.t =
     cls = Printf.sprintf "v%d_qos%d_%s" (int_of_n v) (int_of_n m.m_qos) (if sz < 0 then "err" else if sz < 130 then "small" else if sz < 16390 then "mid" else "large");
     model = Sexp.L [Sexp.L [Sexp.A "tb"; sx_n mtb]; Sexp.L [Sexp.A "pub"; sx_packet { p_fh = None; p_body = mpub }];
                     Sexp.L [Sexp.A "enc"; (match menc with RtBytes (b, tb2, _) -> Sexp.L [Sexp.A "bytes"; sx_bytes b; sx_n tb2] | r -> sx_reenc r)]]; why = "" }
+
+(* ---------------------------------------------------------------- suite ctb: packets.TotalBytes at the varint boundaries *)
+let run_tb (input : Sexp.t) (impl : Sexp.t) : Verdict.t =
+  let t = n_of_sx (Sexp.field1 "t" input) and rl = n_of_sx (Sexp.field1 "rl" input) in
+  let itb = int_of_sx (Sexp.field1 "tb" impl) in
+  let mtb = int_of_n (total_bytes { p_fh = Some { fh_type = t; fh_flags = N0; fh_rl = rl }; p_body = BPingreq }) in
+  let r = int_of_n rl in
+  (* the statement: one byte of type and flags, the variable byte integer of the Remaining Length, the body *)
+  let spec = 1 + (if r < 128 then 1 else if r < 16384 then 2 else if r < 2097152 then 3 else 4) + r in
+  { Verdict.agree = (mtb = itb); oracle = (itb = spec); kf = "-"; nontrivial = true;
+    cls = (if r < 128 then "vbi1" else if r < 16384 then "vbi2" else if r < 2097152 then "vbi3" else "vbi4");
+    model = Sexp.L [Sexp.L [Sexp.A "tb"; sx_int mtb]]; why = if itb = spec then "" else Printf.sprintf "TotalBytes = %d for Remaining Length %d, on the wire %d" itb r spec }
